@@ -245,6 +245,15 @@ class Manager(ServerBase):
             # If server has already shutdown or crashed, just exit
             pass
 
+    def handle_disconnect(self, conn: Connection) -> None:
+        """Remove `conn` from the manager; shutdown if it was upstream."""
+        super().handle_disconnect(conn)
+
+        # If my boss crashed/shutdown/disconnected, nobody can reach me
+        # or my workers anymore, I shutdown
+        if conn == self.upstream and self.running:
+            self.handle_shutdown()
+
     def send_up_or_schedule_tasks(self, tasks: Sequence[RuntimeTask]) -> None:
         """Either send the tasks upstream or schedule them downstream."""
         num_idle = self.num_idle_workers
